@@ -21,11 +21,11 @@ def check(case: dict) -> Verdict:
 
 def enum_small(tier: str):
     """Every history of length <= L over a small alphabet, for a few configurations (window < / = / > recovery)."""
-    alphabet = [["fail", "TRANSIENT"], ["fail", "UNKNOWN"], ["succ"], ["allow"], ["adv", 1], ["adv_win", 0], ["adv_win", -1], ["adv_rec", 0]]
+    alphabet = [["fail", "TRANSIENT"], ["fail", "UNKNOWN"], ["succ"], ["allow"], ["adv", 1], ["adv_win", 0], ["adv_win_class", "UNKNOWN", 0], ["adv_rec", 0]]
     L = 5 if tier == "quick" else 6
     cfgs = [
         {"threshold": 2, "window": 4, "recovery": 4},
-        {"threshold": 2, "window": 4, "recovery": 2, "class_thresholds": {"UNKNOWN": 1}},
+        {"threshold": 3, "window": 4, "recovery": 2, "class_thresholds": {"UNKNOWN": 2}},
         {"threshold": 3, "window": 2, "recovery": 4, "trip_on": ["TRANSIENT"]},
     ]
     for cfg in cfgs:
